@@ -18,7 +18,7 @@ RULE = (
     "PYTHONHASHSEED in {0, 1, 12345, random}, ninja -j1 / -j4 / -j16 with random per-step delays injected by the shims (the "
     "distinct step completion orders actually observed are counted from the event logs), build directories of different "
     "depth with spaces in the path and through a symbolic link, different working directories, relative and absolute source paths.  sha256 of the font "
-    "(and of the glyph map and feature file) must be equal inside a class.  In-process multiplier: the same _generate_color_font "
+    "(and of the glyph map and feature file) must be equal inside a class.  Multi-configuration classes: 2-3 configurations in one invocation (several edges of every ninja rule) under -j1/-j8/-j16 with delays.  In-process multiplier: the same _generate_color_font "
     "inputs (C01/C02/C03 generators + shared outlines whose every use has its own fill and opacity) built in fresh interpreters under 4 hash seeds.  Non-trivial = class with >= 3 sources or shared shapes; "
     "distinct = hash of the class inputs."
 )
@@ -30,8 +30,64 @@ TIMEOUT = {"quick": 1500, "thorough": 6 * 3600}
 CASE_TIMEOUT = 900
 
 
+N_MULTI = {"quick": 3, "thorough": 24}
+
+
+def run_multi(case):
+    """Several configurations built in one invocation (one ninja graph with several edges of every rule) under
+    different degrees of parallelism and injected delays: every font must come out byte-identical."""
+    from vf.drive import cli
+
+    r = common.rng(ID, "multi", case["seed"], case["i"])
+    fmt = r.choice(["glyf_colr_1", "picosvg", "untouchedsvg", "glyf_colr_0"])
+    res = {"counters": {}, "violations": [], "tags": ["multi-config", fmt]}
+    c = res["counters"]
+    root = common.mkscratch("c08m-")
+    try:
+        nconf = r.randint(2, 3)
+        src = root / "src"
+        tomls = []
+        for k in range(nconf):
+            srcs = source_set(r, fmt)
+            sub = f"set{k}"
+            for s_ in srcs:
+                s_["name"] = f"{sub}/" + s_["name"]
+            cli.write_sources(src, srcs)
+            (src / f"c{k}.toml").write_text(cli.toml_text({"color_format": fmt, "output_file": f"F{k}.ttf", "family": f"Multi {k}"}, srcs=[s_["name"] for s_ in srcs]))
+            tomls.append(f"c{k}.toml")
+        hashes, orders = [], set()
+        for vi, (j, delay, hs) in enumerate(((1, None, "0"), (16, 200, "0"), (8, 350, "1"), (16, 80, "7"))):
+            ev = root / f"ev{vi}.jsonl"
+            b = root / f"b{vi}"
+            rc_, out = cli.nanoemoji(["--build_dir", str(b)] + tomls, src, cli.env_for(events=ev, delay_ms=delay, delay_seed=case["i"] * 10 + vi, ninja_j=j, hashseed=hs), timeout=400)
+            c["cli_builds"] = c.get("cli_builds", 0) + 1
+            if rc_ != 0:
+                hashes.append((f"-j{j}", None, out[-800:]))
+                continue
+            hashes.append((f"-j{j}", tuple(cli.sha256(b / f"F{k}.ttf") for k in range(nconf)), ""))
+            orders.add(cli.completion_order(cli.events(ev)))
+        ok = [h for h in hashes if h[1]]
+        if ok and len(ok) != len(hashes):
+            bad = [h for h in hashes if not h[1]][0]
+            res["violations"].append({"what": f"the same configurations build under {ok[0][0]} and fail under {bad[0]}", "format": fmt, "output": bad[2]})
+        elif ok and len({h[1] for h in ok}) != 1:
+            res["violations"].append({"what": "fonts of a multi-configuration invocation depend on the ninja schedule (-j / step timing)", "format": fmt, "outcomes": [(h[0], h[1]) for h in hashes]})
+        elif not ok:
+            c["classes_not_buildable_in_any_variant"] = 1
+        c["distinct_completion_orders"] = len(orders)
+        c["classes"] = 1
+        c["multi_config_classes"] = 1
+        res["nontrivial"] = True
+        res["key"] = common.sha([fmt, tomls, case["i"]])
+        res["orders"] = [list(o) for o in list(orders)[:2]]
+    finally:
+        shutil.rmtree(root, ignore_errors=True)
+    return res
+
+
 def plan(tier, seed):
     cases = [{"id": f"{seed}-cli{i}", "kind": "cli", "i": i} for i in range(N_CLI[tier])]
+    cases += [{"id": f"{seed}-multi{i}", "kind": "multi", "i": i} for i in range(N_MULTI[tier])]
     cases += [{"id": f"{seed}-ip{i}", "kind": "inproc", "i": i} for i in range(N_INPROC[tier])]
     return cases
 
@@ -107,7 +163,9 @@ def run_cli(case):
         variants.append(dict(label="explicit shuffled list in toml next to the sources", args=["list.toml"], cwd=src_dir, bdir=root / "b4", hs="7", j=2, delay=None))
         if two_dirs:
             rel_a = [n[2:] if n.startswith("a/") else "../" + n for n in names]
-            variants.append(dict(label="relative paths from inside one source directory (../b/x.svg), j16", args=rel_a, cwd=src_dir / "a", bdir=root / "b5", hs="0", j=16, delay=300))
+            # ... and with the build directory inside that source directory, so that build-relative spellings of the two
+            # directories (../x.svg, ../../b/y.svg) order differently from absolute ones
+            variants.append(dict(label="relative paths from inside one source directory (../b/x.svg), build directory inside it, j16", args=rel_a, cwd=src_dir / "a", bdir=src_dir / "a" / "bld5", hs="0", j=16, delay=300))
         else:
             variants.append(dict(label="sorted-args j16 other delay seed", args=names, cwd=src_dir, bdir=root / "b5", hs="0", j=16, delay=300))
         # the "deep dir" of variant 2 is a symbolic link to a directory at another depth: lexical and physical paths of
@@ -221,7 +279,7 @@ def run_inproc(case):
 
 
 def run_case(case):
-    return run_cli(case) if case["kind"] == "cli" else run_inproc(case)
+    return {"cli": run_cli, "multi": run_multi, "inproc": run_inproc}[case["kind"]](case)
 
 
 def finish(agg):
@@ -237,6 +295,8 @@ def finish(agg):
         inc.append("schedule perturbation produced fewer than 2 distinct step completion orders per class on average")
     if c.get("classes_not_buildable_in_any_variant", 0) * 4 > c.get("classes", 0):
         inc.append(f"{c.get('classes_not_buildable_in_any_variant')} of {c.get('classes')} CLI classes could not be built in any variant: nothing compared there")
+    if c.get("multi_config_classes", 0) == 0:
+        inc.append("no multi-configuration class ran")
     if c.get("inproc_all_failed", 0) > c.get("inproc_classes", 1) // 2:
         inc.append("most in-process hash-seed builds failed to run")
     return {"inconclusive": inc, "coverage": {"cli_classes": c.get("classes", 0), "cli_builds": c.get("cli_builds", 0), "distinct_step_completion_orders_observed_sum_over_classes": c.get("distinct_completion_orders", 0), "example_completion_orders": [list(o) for o in list(orders)[:2]], "inproc_builds": c.get("inproc_builds", 0)}}
